@@ -1,0 +1,72 @@
+//go:build verif
+
+package pqueue
+
+import (
+	"encoding/json"
+	"fmt"
+	"os"
+	"sync"
+)
+
+// Verification hooks, only compiled with the verif build tag.
+//
+// VerifEvent is called at each linearization point of the queue. For events emitted inside the
+// queue's critical section (locked == true) active and queued are len(q.active) and len(q.queued)
+// after the state change and before the mutex is released. VerifGate is called before each lock
+// acquisition and before the select in Acquire; a blocking gate lets a scheduler impose an
+// interleaving. Both are nil unless a harness installs them.
+var (
+	VerifEvent func(kind string, q any, e any, max, active, queued int, locked bool)
+	VerifGate  func(point string, q any, e any)
+	VerifMulti func(kind string, e any, lockI, i int)
+)
+
+func vpEvent[T any](kind string, q *Queue[T], e *T) {
+	if f := VerifEvent; f != nil {
+		f(kind, q, e, q.max, len(q.active), len(q.queued), true)
+	}
+}
+
+func vpEventU[T any](kind string, q *Queue[T], e *T) {
+	if f := VerifEvent; f != nil {
+		f(kind, q, e, q.max, -1, -1, false)
+	}
+}
+
+func vpGate[T any](point string, q *Queue[T], e *T) {
+	if f := VerifGate; f != nil {
+		f(point, q, e)
+	}
+}
+
+func vpMulti[T any](kind string, e *T, lockI, i int) {
+	if f := VerifMulti; f != nil {
+		f(kind, e, lockI, i)
+	}
+}
+
+// When VERIF_PQ_TRACE names a file, every event is appended to it as one JSON line, with the
+// queue and the entry identified by their addresses. This records the repository's own tests.
+func init() {
+	fn := os.Getenv("VERIF_PQ_TRACE")
+	if fn == "" {
+		return
+	}
+	f, err := os.OpenFile(fn, os.O_APPEND|os.O_CREATE|os.O_WRONLY, 0o644)
+	if err != nil {
+		return
+	}
+	var mu sync.Mutex
+	seq := 0
+	enc := json.NewEncoder(f)
+	VerifEvent = func(kind string, q any, e any, max, active, queued int, locked bool) {
+		mu.Lock()
+		defer mu.Unlock()
+		seq++
+		_ = enc.Encode(map[string]any{
+			"ev": kind, "q": fmt.Sprintf("%p", q), "p": fmt.Sprintf("%p", e),
+			"max": max, "act": active, "que": queued, "seq": seq, "pid": os.Getpid(),
+		})
+	}
+}
